@@ -590,6 +590,36 @@ func c04One(c *vf.Ctx, sub string, i int, env *c04Env, k c04Case) {
 				c.Fail(sub, i, "successful-sync-did-not-set-latest:"+k.classKey(), faulty.latest.String(), wit())
 			}
 		}
+		var secondOK *c04Obs
+		// the same head announced again while the publisher is still broken: that sync fails as well and is reported
+		// like the first one (one error notification naming the head, nothing else changed)
+		if failed && k.Announced && i%3 == 0 {
+			front.Plan = func(ev ReqEvent) *Fault {
+				if ev.Rsrc == "head" {
+					return nil
+				}
+				return &Fault{Status: 500, Label: "still-broken"}
+			}
+			second := ru.syncOnce(front, head, false)
+			front.Plan = nil
+			phases = append(phases, fmt.Sprintf("same head announced again while the publisher is still broken: err=%v", second.err))
+			c.Inc("same_head_failing_twice")
+			if second.err == errNoNotification {
+				c.Fail(sub, i, "no-notification-for-second-failure-of-the-same-head:"+k.classKey(), "", wit())
+				return
+			}
+			if second.err == nil {
+				// (every block it still needed was refused, so it cannot have completed unless nothing was missing:
+				// then it is the successful retry, and the head is not announced a third time)
+				c.Inc("second_announcement_needed_nothing")
+				secondOK = &second
+			} else if len(second.events) != 1 || second.events[0].Err == nil || !second.events[0].Cid.Equals(head) {
+				c.Fail(sub, i, "announced-failure-not-one-error-notification:second-failure:"+k.classKey(), fmt.Sprint(second.events), wit())
+			}
+			if second.err != nil && !second.latest.Equals(base) {
+				c.Fail(sub, i, "latest-changed-by-failed-sync:second-failure:"+k.classKey(), second.latest.String(), wit())
+			}
+		}
 		// blocks verified so far (must not be fetched again by the retry)
 		have := map[string]bool{}
 		for x := 0; x <= c04Head; x++ {
@@ -602,7 +632,10 @@ func c04One(c *vf.Ctx, sub string, i int, env *c04Env, k c04Case) {
 			ru.pi.Addrs = nil
 			c.Inc("retries_naming_the_publisher_only")
 		}
-		if failed && k.Announced {
+		if failed && k.Announced && secondOK != nil {
+			reann = *secondOK
+			retry = reann
+		} else if failed && k.Announced {
 			// the same CID may be announced again and is acted on
 			reann = ru.syncOnce(front, head, false)
 			phases = append(phases, fmt.Sprintf("re-announcement of the same head: err=%v", reann.err))
